@@ -51,6 +51,19 @@ func c16ByteStrings(seed int64, thorough bool) [][]byte {
 		new(big.Int).Sub(new(big.Int).Lsh(bigR, 1), bi(1)), new(big.Int).Lsh(bigR, 1), two(253), new(big.Int).Sub(two(253), bi(1)),
 		new(big.Int).Sub(two(256), bi(1)), two(255), new(big.Int).Sub(two(64), bi(1)), two(64), two(128), two(192),
 		new(big.Int).Sub(bigP, bi(1)), bigP}
+	// r and 2r plus/minus the limb-boundary offsets: each 64-bit limb of the value on either side of the
+	// corresponding limb of r while the higher limbs are equal
+	for _, base := range []*big.Int{bigR, new(big.Int).Lsh(bigR, 1)} {
+		for _, e := range []uint{1, 63, 64, 65, 127, 128, 129, 191, 192, 193} {
+			for _, d := range []int64{-1, 0, 1} {
+				off := new(big.Int).Add(two(e), bi(d))
+				if up := new(big.Int).Add(base, off); up.BitLen() <= 256 {
+					vals = append(vals, up)
+				}
+				vals = append(vals, new(big.Int).Sub(base, off))
+			}
+		}
+	}
 	for i := 0; i < 4; i++ {
 		vals = append(vals, prfR(seed, "c16", i), prf(seed, "c16w", i))
 	}
